@@ -28,7 +28,7 @@ Proof.
   revert a u; induction t as [n|t IH|t IH]; simpl; intros a u H.
   - unfold parse_named in H. destruct (lookup_type S n) as [[b|[c|]|vals|fs]|];
       inversion H; reflexivity.
-  - destruct (parse_type_node S t false) as [[a' u']|]; inversion H; reflexivity.
+  - destruct (parse_type_node S t true) as [[a' u']|]; inversion H; reflexivity.
   - eapply IH; exact H.
 Qed.
 
@@ -62,11 +62,11 @@ Qed.
 
 Lemma gen_one_dictval S snake v p e :
   gen_one S snake v = Some (p, e) ->
-  snd e = DName (pname snake (v_name v)) \/ exists f, snd e = DCall f (pname snake (v_name v)).
+  exists a used, parse_type_node S (v_type v) true = Some (a, used) /\
+                 snd e = dict_value S (pname snake (v_name v)) used (v_type v).
 Proof.
   unfold gen_one. destruct (parse_type_node S (v_type v) true) as [[a u]|]; [|discriminate].
-  intro H; inversion H; subst; simpl. unfold dict_value.
-  destruct (ser_name S u); [right; eexists; reflexivity | left; reflexivity].
+  intro H; inversion H; subst; simpl. exists a, u. split; reflexivity.
 Qed.
 
 (* the variables dict is keyed by the ORIGINAL GraphQL names, in declaration order *)
